@@ -251,3 +251,131 @@ Proof.
   - unfold pi. rewrite Rmin_right by lra. replace (1 - 1) with 0 by ring. rewrite Rabs_R0. ring.
   - unfold pi. rewrite Rmin_left by lra. rewrite Rabs_pos_eq by lra. field.
 Qed.
+
+(* ---- unbounded supports, as far as proved: for continuous pi, q, f on the whole line the net flow
+        int_a^b int_a^b min(pi(x)q(x,y), pi(y)q(y,x)) (f(y) - f(x)) dy dx  vanishes over EVERY square [a,b]^2, hence so does its limit
+        along the squares [-n,n]^2 (the improper double integral of the net flow of the TRUE whole-line kernel, taken along squares).
+        Passing from the squares to the kernel integrated over all of R (dominated convergence) is not formalised. ---------------- *)
+Section WholeLine.
+Variable pi : R -> R.
+Variable q : R -> R -> R.
+Variable f : R -> R.
+Hypothesis pi_nonneg : forall x, 0 <= pi x.
+Hypothesis q_nonneg : forall x y, 0 <= q x y.
+Hypothesis pi_cont : forall x, continuity_pt pi x.
+Hypothesis q_cont : cont2 q.
+Hypothesis f_cont : forall x, continuity_pt f x.
+
+Theorem net_flow_zero_every_box a b : RInt (fun x => RInt (hflow pi q f x) a b) a b = 0.
+Proof.
+  apply (net_flow_zero a b pi q pi_nonneg q_nonneg f).
+  - intro x. apply (moveint_ex pi q f pi_nonneg q_nonneg pi_cont q_cont f_cont).
+  - apply (param_ex_RInt (hflow pi q f) a b a b (hflow_cont2 pi q f pi_cont q_cont f_cont)).
+  - apply (fubini_continuous (hflow pi q f) (hflow_cont2 pi q f pi_cont q_cont f_cont) a a b b).
+Qed.
+
+Corollary net_flow_limit_along_squares :
+  is_lim_seq (fun n : nat => RInt (fun x => RInt (hflow pi q f x) (- INR n) (INR n)) (- INR n) (INR n)) 0.
+Proof.
+  apply is_lim_seq_ext with (fun _ : nat => 0); [intro n; symmetry; apply net_flow_zero_every_box | apply is_lim_seq_const].
+Qed.
+End WholeLine.
+
+(* ---- R^2, one COORDINATE update (CWMH updates coordinate 1 with coordinate 2 held fixed; the other coordinate and R^n with more
+        parameters are the same statement): the kernel acts on f by an MH move in x1 for the conditional density pi(., x2); if for every
+        fixed x2 the slices are continuous and non-negative, the joint density is invariant on the rectangle [a,b] x [c,d] as an
+        iterated Riemann integral.  (The composition of the coordinate kernels into a sweep on a continuous space is not formalised.) -- *)
+Theorem coordinate_kernel_invariant_2d (pi2 : R -> R -> R) (q2 : R -> R -> R -> R) (f2 : R -> R -> R) (a b c d : R) :
+  (forall x2 x1, 0 <= pi2 x1 x2) -> (forall x2 x1 y1, 0 <= q2 x2 x1 y1) ->
+  (forall x2 x1, continuity_pt (fun t => pi2 t x2) x1) -> (forall x2, cont2 (q2 x2)) -> (forall x2 x1, continuity_pt (fun t => f2 t x2) x1) ->
+  RInt (fun x2 => RInt (fun x1 => pi2 x1 x2 * Kf a b (fun t => pi2 t x2) (q2 x2) (fun t => f2 t x2) x1) a b) c d =
+  RInt (fun x2 => RInt (fun x1 => pi2 x1 x2 * f2 x1 x2) a b) c d.
+Proof.
+  intros Hp Hq Cp Cq Cf. apply RInt_ext. intros x2 _.
+  apply (invariance_RInt_continuous (fun t => pi2 t x2) (q2 x2) (fun t => f2 t x2) (Hp x2) (Hq x2) (Cp x2) (Cq x2) (Cf x2) a b).
+Qed.
+
+(* ---- the proposals the samplers use, in one dimension: Gaussian N(m(x), sigma^2) with a continuous mean map m --
+        random walk m(x) = x, MALA m(x) = x + (s/2) grad(x) (sigma^2 = s), pCN m(x) = sqrt(1-s^2) x (sigma = s) -- have a jointly
+        continuous density, so the interval theorem applies to them with NO analytic hypothesis left beyond continuity of the target
+        (and of its gradient for MALA) ------------------------------------------------------------------------------------------ *)
+Definition gauss_q (c sigma : R) (m : R -> R) (x y : R) : R := c * exp (- ((y - m x) * (y - m x)) / (2 * (sigma * sigma))).
+
+Lemma gauss_q_nonneg c sigma m : 0 <= c -> forall x y, 0 <= gauss_q c sigma m x y.
+Proof. intros Hc x y. unfold gauss_q. apply Rmult_le_pos; [exact Hc | left; apply exp_pos]. Qed.
+
+Lemma gauss_q_cont2 c sigma m : (forall x, continuity_pt m x) -> cont2 (gauss_q c sigma m).
+Proof.
+  intros Hm x y. unfold gauss_q.
+  apply continuity_2d_pt_mult; [apply continuity_2d_pt_const|].
+  apply (continuity_1d_2d_pt_comp exp (fun x y => - ((y - m x) * (y - m x)) / (2 * (sigma * sigma)))).
+  - apply derivable_continuous_pt. apply derivable_pt_exp.
+  - unfold Rdiv. apply continuity_2d_pt_mult; [|apply continuity_2d_pt_const].
+    apply continuity_2d_pt_opp.
+    assert (D : continuity_2d_pt (fun x y => y - m x) x y).
+    { apply continuity_2d_pt_minus; [apply continuity_2d_pt_id2 | apply (cont2_fst m Hm)]. }
+    apply continuity_2d_pt_mult; exact D.
+Qed.
+
+(* symmetric proposal value on both sides: the acceptance probability is the target ratio alone (the rule of MH / CWMH / pCN) *)
+Lemma acc0_symmetric px py c : 0 < px -> 0 <= py -> 0 < c -> acc0 (px * c) (py * c) = Rmin 1 (py / px).
+Proof.
+  intros Hx Hy Hc. unfold acc0. assert (P : 0 < px * c) by (apply Rmult_lt_0_compat; assumption).
+  destruct (Req_EM_T (px * c) 0) as [Z|_]; [lra|]. f_equal. field. split; lra.
+Qed.
+
+Theorem gaussian_proposal_invariant (pi : R -> R) (m : R -> R) (f : R -> R) (c sigma a b : R) :
+  (forall x, 0 <= pi x) -> (forall x, continuity_pt pi x) -> (forall x, continuity_pt m x) -> (forall x, continuity_pt f x) -> 0 <= c ->
+  RInt (fun x => pi x * Kf a b pi (gauss_q c sigma m) f x) a b = RInt (fun x => pi x * f x) a b.
+Proof.
+  intros Hp Cp Cm Cf Hc.
+  apply (invariance_RInt_continuous pi (gauss_q c sigma m) f Hp (gauss_q_nonneg c sigma m Hc) Cp (gauss_q_cont2 c sigma m Cm) Cf a b).
+Qed.
+
+(* for the random walk m(x) = x the proposal density is symmetric, so the kernel's acceptance probability is min(1, pi(y)/pi(x)) *)
+Lemma rw_gauss_symmetric c sigma x y : gauss_q c sigma (fun t => t) x y = gauss_q c sigma (fun t => t) y x.
+Proof. unfold gauss_q. replace ((x - y) * (x - y)) with ((y - x) * (y - x)) by ring. reflexivity. Qed.
+
+Lemma rw_gauss_alpha (pi : R -> R) c sigma x y : (forall t, 0 <= pi t) -> 0 < pi x -> 0 < c ->
+  alphaC pi (gauss_q c sigma (fun t => t)) x y = Rmin 1 (pi y / pi x).
+Proof.
+  intros Hp Hx Hc. unfold alphaC. rewrite (rw_gauss_symmetric c sigma y x).
+  apply acc0_symmetric; [exact Hx | apply Hp |]. unfold gauss_q. apply Rmult_lt_0_compat; [exact Hc | apply exp_pos].
+Qed.
+
+(* ---- a proposal with BOUNDED support: the triangular random walk q(x,y) = max(0, w - |y - x|) (zero for |y - x| >= w, symmetric).
+        It is jointly continuous, so the interval theorem applies: a compactly supported target AND a bounded-support proposal ------- *)
+Definition tent_q (w x y : R) : R := Rmax 0 (w - Rabs (y - x)).
+
+Lemma Rmax_formula u v : Rmax u v = (u + v + Rabs (u - v)) / 2.
+Proof.
+  unfold Rmax. destruct (Rle_dec u v) as [H|H].
+  - rewrite Rabs_left1 by lra. field.
+  - rewrite Rabs_pos_eq by lra. field.
+Qed.
+
+Lemma tent_q_facts w : (forall x y, 0 <= tent_q w x y) /\ (forall x y, w <= Rabs (y - x) -> tent_q w x y = 0) /\
+  (forall x y, tent_q w x y = tent_q w y x) /\ cont2 (tent_q w).
+Proof.
+  split; [intros; unfold tent_q; apply Rmax_l|]. split; [intros x y H; unfold tent_q; rewrite Rmax_left; lra|].
+  split; [intros x y; unfold tent_q; rewrite (Rabs_minus_sym y x); reflexivity|].
+  intros x y.
+  apply (continuity_2d_pt_ext (fun x y => (0 + (w - Rabs (y - x)) + Rabs (0 - (w - Rabs (y - x)))) * / 2)).
+  - intros u v. unfold tent_q. rewrite Rmax_formula. reflexivity.
+  - assert (D : continuity_2d_pt (fun x y => w - Rabs (y - x)) x y).
+    { apply continuity_2d_pt_minus; [apply continuity_2d_pt_const|].
+      apply (continuity_1d_2d_pt_comp Rabs (fun x y => y - x)); [apply Rcontinuity_abs|].
+      apply continuity_2d_pt_minus; [apply continuity_2d_pt_id2 | apply continuity_2d_pt_id1]. }
+    apply continuity_2d_pt_mult; [|apply continuity_2d_pt_const].
+    apply continuity_2d_pt_plus; [apply continuity_2d_pt_plus; [apply continuity_2d_pt_const | exact D]|].
+    apply (continuity_1d_2d_pt_comp Rabs (fun x y => 0 - (w - Rabs (y - x)))); [apply Rcontinuity_abs|].
+    apply continuity_2d_pt_minus; [apply continuity_2d_pt_const | exact D].
+Qed.
+
+Theorem bounded_support_proposal_invariant (pi f : R -> R) (w a b : R) :
+  (forall x, 0 <= pi x) -> (forall x, continuity_pt pi x) -> (forall x, continuity_pt f x) ->
+  RInt (fun x => pi x * Kf a b pi (tent_q w) f x) a b = RInt (fun x => pi x * f x) a b.
+Proof.
+  intros Hp Cp Cf. destruct (tent_q_facts w) as [Q0 [_ [_ QC]]].
+  apply (invariance_RInt_continuous pi (tent_q w) f Hp Q0 Cp QC Cf a b).
+Qed.
